@@ -25,14 +25,14 @@ ID = "C01"
 TITLE = "Label indexing returns exactly the data stored at those labels"
 RULE = ("generated: arrays of 0-4 dims, sizes 0-4 (thorough 0-5), unique int/float/str labels inc/dec/shuffled, injective values; per "
         "dimension a label descriptor (full | present scalar (python / numpy) | list or ndarray of labels incl. repeated, empty, one absent "
-        "(below/between/above) | boolean mask | absent scalar) and a position descriptor (int incl. negative | list | mask | slice); every "
+        "(below/between/above; of the other kind: a number on a str axis, a word on a numeric axis) | boolean mask | absent scalar) and a position descriptor (int incl. negative | list | mask | slice); every "
         "applicable spelling (a[t], take(t), take({dim|pos: i}), take(i, axis=name|pos), .loc, .sel, keepdims, trailing dims omitted, "
         "Ellipsis; .ix/.iloc/isel/indexing='position'); tolerance cases (nloc, tol=) with queries label+-delta; all under indexing.by in "
-        "{label, position}.  Enumerated: all permutations of 4 int and 4 str labels x all single / pair lookups incl. absent.  Non-trivial: "
+        "{label, position}; optionally after an earlier read of the same array (nloc, tol=, by position).  Enumerated: all permutations of 4 int and 4 str labels x all single / pair lookups incl. absent.  Non-trivial: "
         "ndim >= 1, size > 0 and at least one dimension carries a non-full index.  distinct = distinct case description.")
 ASSUMPTIONS = [
     "oracle: list lookup + np.ix_ on a plain ndarray copy of the values (vlib/indexmodel.py)",
-    "queries are of the axis' own kind (int/float interchangeable); labels unique",
+    "present queries are of the axis' own kind (int/float interchangeable); labels unique; an absent *list* of another kind may be refused with TypeError instead of IndexError",
     "equidistant nearest labels under tol: any minimiser accepted",
 ]
 MANDATORY = ["axis:shuf", "axis:dec", "desc:list", "desc:mask", "desc:scalar", "desc:absent-scalar", "desc:absent-in-list:below",
